@@ -290,13 +290,13 @@ theorem C13_syntax_accessors (o : Oracle) (t : Tree) (g : CGraph) (id : Nat) (n 
     (match call o t "node-type" [.syn id] g with | .ok v g' => v = .str n.kind ∧ g' = g | _ => False) ∧
     (match call o t "named-child-count" [.syn id] g with
       | .ok v g' => v = .int (t.namedChildren n).length ∧ g' = g | _ => False) := by
-  simp [call, synArg, param, asSyn, h, finish, liftE, bind, Except.bind, pure, Except.pure, Except.map]
+  simp [call, callPure, synArg, param, asSyn, h, finish, liftP, bind, Except.bind, pure, Except.pure, Except.map]
 
 /-- `source-text` is the slice of the source at the node's byte range -/
 theorem C13_source_text (o : Oracle) (t : Tree) (g : CGraph) (id : Nat) (n : TNode) (s : String)
     (h : t.node? id = some n) (hs : Tree.sliceBytes t.source n.startByte n.endByte = some s) :
     (match call o t "source-text" [.syn id] g with | .ok v g' => v = .str s ∧ g' = g | _ => False) := by
-  simp [call, synArg, param, asSyn, h, finish, hs, bind, Except.bind, pure, Except.pure]
+  simp [call, callPure, synArg, param, asSyn, h, finish, hs, bind, Except.bind, pure, Except.pure]
 
 /-- a non-syntax-node argument to a syntax function is an error -/
 theorem C13_syntax_type_error (o : Oracle) (t : Tree) (g : CGraph) (v : Val) (hv : ∀ i, v ≠ .syn i) :
@@ -304,7 +304,7 @@ theorem C13_syntax_type_error (o : Oracle) (t : Tree) (g : CGraph) (v : Val) (hv
     (match call o t "source-text" [v] g with | .err .expectedSyntaxNode => True | _ => False) ∧
     (match call o t "named-child-index" [v] g with | .err .expectedSyntaxNode => True | _ => False) := by
   cases v <;>
-    simp_all [call, synArg, namedChildIndex, param, asSyn, liftE, bind, Except.bind, Except.map]
+    simp_all [call, callPure, synArg, namedChildIndex, param, asSyn, liftP, bind, Except.bind, Except.map]
 
 theorem idxOf?_some_getElem? (l : List Nat) (x i : Nat) (h : l.idxOf? x = some i) : l[i]? = some x := by
   induction l generalizing i with
@@ -328,7 +328,10 @@ theorem C13_named_child_index (o : Oracle) (t : Tree) (g : CGraph) (id i : Nat) 
     (h : call o t "named-child-index" [.syn id] g = .ok (.int i) g') :
     ∃ n p pn, t.node? id = some n ∧ n.parent = some p ∧ t.node? p = some pn ∧
       (t.namedChildren pn)[i]? = some id ∧ g' = g := by
-  simp only [call, liftE, namedChildIndex, synArg, synArgId, param, asSyn, bind, Except.bind, pure, Except.pure] at h
+  have hcp : callPure o t "named-child-index" [.syn id] = liftP (namedChildIndex t [.syn id]) := by simp [callPure]
+  have hne : ("named-child-index" = "node") = False := by decide
+  simp only [call, hne, if_false, hcp] at h
+  simp only [liftP, namedChildIndex, synArg, synArgId, param, asSyn, bind, Except.bind, pure, Except.pure] at h
   cases hn : t.node? id with
   | none => simp [hn, throw, throwThe, MonadExceptOf.throw] at h
   | some n =>
@@ -353,7 +356,7 @@ theorem C13_named_child_index (o : Oracle) (t : Tree) (g : CGraph) (id i : Nat) 
 theorem C13_named_child_index_root (o : Oracle) (t : Tree) (g : CGraph) (id : Nat) (n : TNode)
     (h : t.node? id = some n) (hroot : n.parent = none) :
     (match call o t "named-child-index" [.syn id] g with | .err .functionFailed => True | _ => False) := by
-  simp [call, liftE, namedChildIndex, synArg, synArgId, param, asSyn, h, finish, hroot, bind, Except.bind,
+  simp [call, callPure, liftP, namedChildIndex, synArg, synArgId, param, asSyn, h, finish, hroot, bind, Except.bind,
     pure, Except.pure, throw, throwThe, MonadExceptOf.throw]
 
 /-- registration table: exactly the 21 documented names -/
@@ -363,7 +366,23 @@ theorem C13_registration_table : Stdlib.names.length = 21 ∧ Stdlib.names.Nodup
 theorem C13_unknown_function (o : Oracle) (t : Tree) (g : CGraph) (name : String) (args : List Val)
     (h : name ∉ Stdlib.names) : (match call o t name args g with | .err .undefinedFunction => True | _ => False) := by
   simp only [Stdlib.names, List.mem_cons, List.not_mem_nil, or_false, not_or] at h
-  unfold call
-  split <;> simp_all
+  have hnode : name ≠ "node" := h.2.2.2.2.2.2.2.2.2.2.1
+  have hp : callPure o t name args = .err .undefinedFunction := by
+    unfold callPure
+    split <;> simp_all
+  simp [call, hnode, hp]
+
+/-- graph independence: every function except `node` leaves the graph untouched -/
+theorem C13_only_node_touches_graph (o : Oracle) (t : Tree) (g g' : CGraph) (name : String) (args : List Val) (v : Val)
+    (h : call o t name args g = .ok v g') : g' = g ∨ (name = "node" ∧ g' = (g.addGraphNode).1) := by
+  unfold call at h
+  by_cases hn : name = "node"
+  · simp only [hn, if_true] at h
+    cases hf : finish args with
+    | error e => simp [hf] at h
+    | ok u => simp [hf] at h; exact Or.inr ⟨hn, h.2.symm⟩
+  · simp only [hn, if_false] at h
+    cases hp : callPure o t name args <;> simp [hp] at h
+    exact Or.inl h.2.symm
 
 end C13
